@@ -78,6 +78,8 @@ impl LanguageServer {
 
 mod phases {
     use super::LanguageServer;
+    #[cfg(feature = "verif")]
+    use crate::verif::std;
     use crate::{
         document::{self, DocumentRequest},
         error::{ErrorCode, ResponseError},
@@ -233,6 +235,10 @@ mod phases {
                         }
                         Formatting::METHOD => {
                             respond!(request, features::format, doctx.clone())
+                        }
+                        #[cfg(feature = "verif")]
+                        crate::verif::TEXT_METHOD => {
+                            respond!(request, crate::verif::text, doctx.clone())
                         }
                         unknown_method => {
                             let method_name = unknown_method.to_string();
